@@ -1511,6 +1511,104 @@ impl State {
     }
 }
 
+#[cfg(feature = "verif_hooks")]
+impl State {
+    /// Labelled renderings of the complete machine state, for the /verif harness.
+    /// Read-only; sections are compared only against other dumps of the same build.
+    pub fn verif_dump(&self) -> Vec<(&'static str, String)> {
+        use std::fmt::Write;
+        fn cells<'a>(it: impl Iterator<Item = &'a Cell>) -> String {
+            let mut s = String::new();
+            for x in it {
+                x.verif_render(&mut s);
+                s.push(' ');
+            }
+            s
+        }
+        let mut d: Vec<(&'static str, String)> = Vec::new();
+        d.push(("ip", format!("{}", self.ctx.ip)));
+        let base = self.ctx.ds_len.min(self.data_stack.len());
+        d.push(("data", cells(self.data_stack[base..].iter())));
+        d.push(("data_hidden", cells(self.data_stack[..base].iter())));
+        let mut s = String::new();
+        for f in &self.return_stack {
+            let _ = write!(s, "frame(fn={} ret={} locals=[{}]) ", f.fn_addr, f.return_to, cells(f.locals.iter()));
+        }
+        d.push(("return", s));
+        let mut s = String::new();
+        for l in &self.loops {
+            let _ = write!(s, "loop({}..{} items=", l.range.start, l.range.end);
+            l.items.verif_render(&mut s);
+            s.push_str(") ");
+        }
+        d.push(("loops", s));
+        d.push(("special", format!("{:?}", self.special)));
+        d.push(("heap", cells(self.heap.iter())));
+        d.push(("heap_len", format!("{}", self.heap.len())));
+        d.push(("mode", format!("{:?}", self.ctx.mode)));
+        d.push(("ctx", format!("{:?}", self.ctx)));
+        d.push(("nested", format!("{} {:?}", self.nested.len(), self.nested)));
+        d.push(("flow", format!("{} {:?}", self.flow_stack.len(), self.flow_stack)));
+        let mut s = format!("{}", self.input.len());
+        for lex in &self.input {
+            let _ = write!(s, " unread={}", lex.verif_unread());
+        }
+        d.push(("input", s));
+        d.push(("dict_len", format!("{}", self.dict.len())));
+        let mut s = String::new();
+        for e in &self.dict {
+            let kind = match &e.entry {
+                Entry::Constant(c) => {
+                    let mut t = String::from("const=");
+                    c.verif_render(&mut t);
+                    t
+                }
+                Entry::Variable(a) => format!("var@{}", a.index()),
+                Entry::Function { immediate, xf: Xfn::Interp(a), len } => format!("fn@{} imm={} len={:?}", a, immediate, len),
+                Entry::Function { immediate, xf: Xfn::Native(_), .. } => format!("native imm={}", immediate),
+            };
+            let _ = write!(s, "{}:{} ", e.name, kind);
+        }
+        d.push(("dict", s));
+        d.push(("code_len", format!("{}", self.code.len())));
+        let mut s = String::new();
+        for (i, op) in self.code.iter().enumerate() {
+            let _ = write!(s, "{}:{:?} ", i, op);
+        }
+        d.push(("code", s));
+        d.push(("debug_map_len", format!("{}", self.debug_map.len())));
+        d.push(("sources_len", format!("{}", self.sources.len())));
+        d.push(("meter", format!("{}", self.insn_meter)));
+        d.push(("limits", format!("insn={:?} heap={:?} stack={:?}", self.insn_limit, self.heap_limit, self.stack_limit)));
+        d.push(("stack_len", format!("{}", self.data_stack.len())));
+        let s = match &self.reverse_log {
+            None => String::from("off"),
+            Some(log) => {
+                let mut s = format!("{} ", log.len());
+                for r in log {
+                    match r {
+                        ReverseStep::PushData(c) => { s.push_str("PushData("); c.verif_render(&mut s); s.push(')'); }
+                        ReverseStep::SwapRef(a, c) => { let _ = write!(s, "SwapRef({},", a.index()); c.verif_render(&mut s); s.push(')'); }
+                        ReverseStep::PushReturn(f) => { let _ = write!(s, "PushReturn(fn={} ret={} locals=[{}])", f.fn_addr, f.return_to, cells(f.locals.iter())); }
+                        ReverseStep::PushLoop(l) | ReverseStep::LoopNextBack(l) => {
+                            let _ = write!(s, "{}({}..{} items=", if let ReverseStep::PushLoop(_) = r { "PushLoop" } else { "LoopNextBack" }, l.range.start, l.range.end);
+                            l.items.verif_render(&mut s);
+                            s.push(')');
+                        }
+                        other => { let _ = write!(s, "{:?}", other); }
+                    }
+                    s.push(' ');
+                }
+                s
+            }
+        };
+        d.push(("reverse_log", s));
+        d.push(("stdout", format!("{:?}", self.stdout)));
+        d.push(("running", format!("{}", self.is_running())));
+        d
+    }
+}
+
 fn take_first_cond_flow(xs: &mut State) -> Option<Flow> {
     for i in (xs.ctx.fs_len..xs.flow_stack.len()).rev() {
         let t = match xs.flow_stack[i] {
